@@ -6,9 +6,17 @@ contents, and every other object must be unchanged ("value semantics").
 import elems
 
 
+class NotSpecified(Exception):
+    pass
+
+
 def _step(cname, objs, call):
     op = call["op"]
     cls = elems.CLS[cname]
+    if op == "ctor-copy" and cname in elems.EXTRA and len(objs[call["src"]]) != 1:
+        # copy construction of a MULTI-valued line / spatial vector is outside the listed properties (it stores the
+        # list of values as one element): the behaviour is abandoned, not judged
+        raise NotSpecified()
     if op == "getitem":
         objs[call["dst"]] = objs[call["src"]][call["i"]]
     elif op == "slice-all":
@@ -61,6 +69,9 @@ def replay(j, pid, cname, hist):
         detail = {"kind": "sharing", "class": cname, "step": k, "call": call, "program": [s["call"] for s in hist[:k + 1]]}
         try:
             _step(cname, objs, call)
+        except NotSpecified:
+            j.skip("copy construction of a multi-valued line / spatial vector: not specified, behaviour abandoned")
+            return True
         except Exception as ex:  # noqa: BLE001
             j.fail("%s|%s|%s|raised-%s" % (pid, site, feat, type(ex).__name__), detail, cid)
             return False
